@@ -239,13 +239,13 @@ theorem p0a_attesterSlashing (cfg : Config) (S0 : State) (p Bm C : Nat) (K : P0C
     rw [this]; exact hs
   exact hi.comm.of_same (slash_fold_same cfg ctx S0 p Bm C K hi.base.ctxp lst st false _ (st', b) hstart hfold)
 
-theorem p0a_attestation (cfg : Config) (S0 : State) (p Bm C : Nat) (K : P0Const cfg S0 Bm C) (KA : P0AConst cfg) (l : List Attestation) (ctx : Ctx)
+theorem p0a_attestation (cfg : Config) (S0 : State) (p Bm C : Nat) (K : P0Const cfg S0 Bm C) (KA : P0AConst cfg) (hF : S0.fork = .phase0) (l : List Attestation) (ctx : Ctx)
     (hl : ∀ att ∈ l, att.bits_wellformed = true ∧ att.aggregation_bits.length ≤ cfg.MAX_VALIDATORS_PER_COMMITTEE) :
     Step (fun k => P0AInv cfg S0 p Bm C k ctx) true l (Block.process_attestation cfg)
       (if Fork.phase0 = .phase0 then processAttestationPhase0 cfg ctx else processAttestationAltair cfg ctx) := by
   intro k st att hatt hi
   obtain ⟨hwf, hmaxbits⟩ := hl att hatt
-  have hfork : st.fork = .phase0 := by rw [hi.base.slash.fork]; exact K.fork0
+  have hfork : st.fork = .phase0 := by rw [hi.base.slash.fork]; exact hF
   have hcur : st.slot + 2 * cfg.SLOTS_PER_EPOCH < 2 ^ 64 := by rw [hi.base.slash.slot]; exact hi.hcur
   simp only [if_true]
   refine ⟨sim_attestation_phase0' cfg ctx st att p hfork hi.comm hi.base.ctxp hi.base.slash.proposer (hi.nd _ _) hwf hmaxbits
@@ -275,10 +275,10 @@ structure Phase0NoDeposits (cfg : Config) (block : SignedBlock) : Prop where
   atyped : ∀ att ∈ block.attestations, att.bits_wellformed = true ∧ att.aggregation_bits.length ≤ cfg.MAX_VALIDATORS_PER_COMMITTEE
 
 /-- `OpSteps` for `P0AInv`: every field discharged for phase0 blocks without deposits -/
-theorem opSteps_phase0NoDeposits (cfg : Config) (S0 : State) (p Bm C : Nat) (K : P0Const cfg S0 Bm C) (KA : P0AConst cfg) (block : SignedBlock)
+theorem opSteps_phase0NoDeposits (cfg : Config) (S0 : State) (p Bm C : Nat) (K : P0Const cfg S0 Bm C) (KA : P0AConst cfg) (hF : S0.fork = .phase0) (block : SignedBlock)
     (hb : Phase0NoDeposits cfg block) : OpSteps cfg block .phase0 (P0AInv cfg S0 p Bm C) :=
   { mono := fun _ _ _ h => h.mono
-    fork := fun _ _ _ h => by rw [h.base.slash.fork]; exact K.fork0
+    fork := fun _ _ _ h => by rw [h.base.slash.fork]; exact hF
     header := fun k ctx st hi => p0a_header cfg S0 p Bm C block k ctx st hi
     payload := fun ctx payload hpl => by rw [hb.payload] at hpl; cases hpl
     withdrawals := fun ctx payload hpl => by rw [hb.payload] at hpl; cases hpl
@@ -286,19 +286,19 @@ theorem opSteps_phase0NoDeposits (cfg : Config) (S0 : State) (p Bm C : Nat) (K :
     eth1 := fun ctx => p0a_eth1 cfg S0 p Bm C K block ctx
     proposerSlashing := fun ctx => p0a_proposerSlashing cfg S0 p Bm C K _ ctx
     attesterSlashing := fun ctx => p0a_attesterSlashing cfg S0 p Bm C K _ ctx hb.aslen
-    attestation := fun ctx => p0a_attestation cfg S0 p Bm C K KA _ ctx hb.atyped
+    attestation := fun ctx => p0a_attestation cfg S0 p Bm C K KA hF _ ctx hb.atyped
     deposit := fun k ctx st d hd => by rw [hb.dep] at hd; cases hd
     exit := fun ctx => p0a_exit cfg S0 p Bm C K _ ctx
     blsChange := fun ctx k st x hx => by rw [hb.bls] at hx; cases hx
     sync := fun ctx agg hsa => by rw [hb.sync] at hsa; cases hsa }
 
 /-- `M_block_refines_S` / `M_sound` WITHOUT a premise for arbitrary phase0 blocks without deposits -/
-theorem processBlock_phase0NoDeposits (cfg : Config) (S0 : State) (p Bm C k : Nat) (K : P0Const cfg S0 Bm C) (KA : P0AConst cfg)
+theorem processBlock_phase0NoDeposits (cfg : Config) (S0 : State) (p Bm C k : Nat) (K : P0Const cfg S0 Bm C) (KA : P0AConst cfg) (hF : S0.fork = .phase0)
     (ctx : Ctx) (block : SignedBlock) (hb : Phase0NoDeposits cfg block)
     (hi : P0AInv cfg S0 p Bm C (blockNeed block k) ctx S0) (htyped : Block.check_types cfg block = .ok ()) :
     Sim (Block.process_block cfg S0 block) (processBlock cfg ctx S0 block) ∧
     ∀ st', processBlock cfg ctx S0 block = .ok st' → ∃ ctx', P0AInv cfg S0 p Bm C k ctx' st' :=
-  ⟨processBlock_sim (opSteps_phase0NoDeposits cfg S0 p Bm C K KA block hb) k ctx S0 hi htyped,
-   processBlock_inv (opSteps_phase0NoDeposits cfg S0 p Bm C K KA block hb) k ctx S0 hi⟩
+  ⟨processBlock_sim (opSteps_phase0NoDeposits cfg S0 p Bm C K KA hF block hb) k ctx S0 hi htyped,
+   processBlock_inv (opSteps_phase0NoDeposits cfg S0 p Bm C K KA hF block hb) k ctx S0 hi⟩
 
 end Zrnt.Proofs.BlockM
